@@ -216,30 +216,52 @@ def run_history(d, hist, execs, ref, inputs, tag, reuse=None):
     return len(cmds), None
 
 
-def _worker(d, task, extra):
-    q, others, dmax = task
-    ref, inputs = extra["ref"], extra["inputs"]
-    if extra["voc"] == "full":
+def combos_for(q, others, dmax, thorough, voc):
+    """(executions, deviation bound) sets explored for query q."""
+    if voc == "full":
         dmax = 1
-    # (re)create the input stacks in this driver
-    for sname, (init, prefix, _) in inputs.items():
-        d.cmd("mkstack id=%s i=%s p=%s" % (sname, init or "-", drv.hx(prefix)))
-    out = {"histories": 0, "steps": 0, "bad": [], "states": 0}
     qa, qa2 = ("A", q), ("A2", q)
-    # (executions, deviation bound)
     combos = [
         ([Exec(qa, "s1"), Exec(qa, "s1"), Exec(qa, "s2")], dmax),
         ([Exec(qa, "s1"), Exec(qa2, "s1")], dmax + 1),
         ([Exec(qa, "s2"), Exec(qa, "s1")], dmax + 1),
     ]
-    if extra["thorough"]:
+    if thorough:
         combos += [([Exec(qa, "s1"), Exec(qa, "s2"), Exec(qa, "s1")], dmax), ([Exec(qa, "s1"), Exec(qa2, "s1"), Exec(qa, "s2")], dmax)]
     for o in others:
         combos.append(([Exec(("B", o), "s1"), Exec(qa, "s1")], dmax))
-        if extra["thorough"]:
+        if thorough:
             combos.append(([Exec(qa, "s1"), Exec(("B", o), "s2"), Exec(qa, "s1")], 1))
+    return combos
+
+
+def split_tasks(tasks, ref, thorough, voc, per_task=25000):
+    """Cut (q, others, dmax) into (q, others, dmax, (combo index, k, m)) so that no task runs much more than per_task histories."""
+    out = []
+    for q, others, dmax in tasks:
+        for ci, (execs, dm) in enumerate(combos_for(q, others, dmax, thorough, voc)):
+            if any(ref[(e.q[1], e.s)][2] for e in execs):
+                continue
+            lens = [len(ref[(e.q[1], e.s)][0]) for e in execs]
+            n = len(histories(len(execs), lens, dm))
+            m = max(1, -(-n // per_task))
+            out += [(q, others, dmax, (ci, k, m)) for k in range(m)]
+    return out
+
+
+def _worker(d, task, extra):
+    q, others, dmax = task[:3]
+    part = task[3] if len(task) > 3 else None
+    ref, inputs = extra["ref"], extra["inputs"]
+    # (re)create the input stacks in this driver
+    for sname, (init, prefix, _) in inputs.items():
+        d.cmd("mkstack id=%s i=%s p=%s" % (sname, init or "-", drv.hx(prefix)))
+    out = {"histories": 0, "steps": 0, "bad": [], "states": []}
+    combos = combos_for(q, others, dmax, extra["thorough"], extra["voc"])
     seen_states = set()
     for ci, (execs, dm) in enumerate(combos):
+        if part is not None and part[0] != ci:
+            continue
         lens = [len(ref[(e.q[1], e.s)][0]) for e in execs]
         if any(ref[(e.q[1], e.s)][2] for e in execs):
             continue
@@ -250,7 +272,10 @@ def _worker(d, task, extra):
                 if e.q not in reuse:
                     reuse[e.q] = "p%d" % len(reuse)
                     d.cmd("qparse id=%s q=%s" % (reuse[e.q], drv.hx(e.q[1])))
-        for h in histories(len(execs), lens, dm):
+        hs = histories(len(execs), lens, dm)
+        if part is not None:
+            hs = hs[part[1]::part[2]]
+        for h in hs:
             steps, v = run_history(d, h, execs, ref, inputs, "", reuse)
             if v and v[0] == "crash" and reuse is not None:
                 for qk, qid in reuse.items():       # the driver was restarted: compile again
@@ -273,12 +298,12 @@ def _worker(d, task, extra):
                     q, [(e.q[0], e.q[1], e.s) for e in execs], " ".join("%s%d" % a for a in h), v[1]),
                     {"q": q, "execs": [[e.q[0], e.q[1], e.s] for e in execs], "hist": [list(a) for a in h], "voc": extra["voc"]}))
                 if len(out["bad"]) >= 5:
-                    out["states"] = len(seen_states)
+                    out["states"] = [(q, extra["voc"]) + st for st in seen_states]
                     return out
         if reuse is not None:
             for qid in reuse.values():
                 d.cmd("qdestroy id=%s" % qid)
-    out["states"] = len(seen_states)
+    out["states"] = [(q, extra["voc"]) + st for st in seen_states]
     return out
 
 
@@ -330,6 +355,9 @@ def replay(case):
         d.close()
 
 
+ALLSTATES = set()
+
+
 def main(ctx):
     bins = ctx.build(["zwdrv"])
     b = bins["zwdrv"]
@@ -345,20 +373,24 @@ def main(ctx):
         if "`[" in q:
             others = [o for o in CORE if "`[" in o and o != q] + others
         tasks.append((q, others, dmax))
+    if thorough:
+        tasks = split_tasks(tasks, ref, thorough, "core")
     for r in common.pmap(ctx, _worker, tasks, b, "core", extra={"ref": ref, "inputs": ins, "voc": "core", "thorough": thorough}, timeout=60):
         ctx.count("histories", r["histories"])
         ctx.count("api_steps", r["steps"])
-        ctx.count("abstract_states", r["states"])
+        ALLSTATES.update(r["states"])
         for key, what, case in r["bad"]:
             ctx.violation(key, what, case)
     # ---- sequences and strings coming from the input stack
     sins, sref = prepare(b, "core", [], SEQIN, {"s1": ("-", "[] [7]", None), "s2": ("-", '"x" [] []', None)})
     stasks = [(q, [SEQIN[(k + 1) % len(SEQIN)]], dmax) for k, q in enumerate(SEQIN)]
+    if thorough:
+        stasks = split_tasks(stasks, sref, thorough, "core")
     for r in common.pmap(ctx, _worker, stasks, b, "core", extra={"ref": sref, "inputs": sins, "voc": "core", "thorough": thorough}, timeout=60):
         ctx.count("histories", r["histories"])
         ctx.count("histories_sequence_inputs", r["histories"])
         ctx.count("api_steps", r["steps"])
-        ctx.count("abstract_states", r["states"])
+        ALLSTATES.update(r["states"])
         for key, what, case in r["bad"]:
             case["inputs"] = {"s1": "[] [7]", "s2": '"x" [] []'}
             ctx.violation(key, what, case)
@@ -368,17 +400,19 @@ def main(ctx):
         setup = ["open id=d1 path=" + drv.hx(f1), "open id=d2 path=" + drv.hx(f2)]
         dins, dref = prepare(b, "full", setup, DWARF, {"s1": ("d1", "", None), "s2": ("d2", "", None)})
         dtasks = [(q, [DWARF[(k + 3) % len(DWARF)]], 1) for k, q in enumerate(DWARF)]
+        if thorough:
+            dtasks = split_tasks(dtasks, dref, thorough, "full", per_task=3000)
         for r in common.pmap(ctx, _worker, dtasks, b, "full", setup=setup, extra={"ref": dref, "inputs": dins, "voc": "full", "thorough": thorough}, timeout=120):
             ctx.count("histories", r["histories"])
             ctx.count("histories_dwarf", r["histories"])
             ctx.count("api_steps", r["steps"])
-            ctx.count("abstract_states", r["states"])
+            ALLSTATES.update(r["states"])
             for key, what, case in r["bad"]:
                 ctx.violation(key, what, case)
     ctx.sample({"query": CORE[2], "executions": ["A on s1", "A on s1", "A on s2"], "history": "E0 P0 E1 P1 P0 D0 P1 P1 P1 D1 E2 P2 ... D2",
                 "oracle": "k-th pull of each execution = k-th result of a fresh parse-and-run"})
     cov = {
-        "states": ctx.counts.get("abstract_states", 0),
+        "states": len(ALLSTATES),
         "transitions": ctx.counts.get("api_steps", 0),
         "traces_validated_against_impl": ctx.counts.get("histories", 0),
         "evaluations": ctx.counts.get("histories", 0),
